@@ -77,7 +77,7 @@ pub struct Bases {
 }
 
 pub fn bases() -> Bases {
-    let vc = VolCfg { fat: 12, bps: 512, spc: 4, nfats: 1, root_entries: 64, clusters: 64, extra: 0, garbage: false, slack: 0 };
+    let vc = VolCfg { fat: 12, bps: 512, spc: 4, nfats: 1, root_entries: 64, clusters: 64, extra: 0, garbage: false, slack: 0, used_device: false };
     let (img, _) = make_volume(&vc).expect("template");
     let g = fatck::geo_of(&img).unwrap();
     // subdirectory variant: create "SUB" through the library once
